@@ -345,44 +345,65 @@ func checkC10(cx *Ctx, r *Report) {
 
 	// --- key shapes ---------------------------------------------------------------------------
 	for _, g := range []struct{ fn, method string }{{"key-getter:response", "GetResponseSigningKey"}, {"key-getter:metadata", "GetMetadataSigningKey"}} {
-		fn := cx.fnCallingStorage(g.method)
-		if fn == nil {
+		// every function that asks the storage for the key (not only the first one found): a second accessor
+		// that accepts a record without private key lets requests go on with unusable key material
+		var getters []*ssa.Function
+		for _, f := range w.sortedFuncs(scope) {
+			for _, c := range callsIn(f) {
+				if storageMethod(c) == g.method {
+					getters = append(getters, f)
+					break
+				}
+			}
+		}
+		if len(getters) == 0 {
 			r.Fail("R-GUARD", g.fn, "", "no function in handler-reachable code calls Storage."+g.method)
 			continue
 		}
-		aps, ok := fx.atomPaths(fn, 4096)
-		if !ok {
-			r.Undecided("R-GUARD", g.fn, w.FnPos(fn), "too many paths")
-			continue
-		}
-		bad := ""
-		n := 0
-		for i := range aps {
-			p := &aps[i]
-			isNil, _ := fx.errNilness(p, fx.retVal(p, 2))
-			if !isNil {
+		for gi, fn := range getters {
+			gkey := g.fn
+			if gi > 0 {
+				gkey = g.fn + ":" + w.FuncKey(fn)
+			}
+			res := fn.Signature.Results()
+			if res.Len() == 0 || !isErrorType(res.At(res.Len()-1).Type()) {
+				r.Fail("R-GUARD", gkey+":key-shape", w.FnPos(fn), w.FuncKey(fn)+" calls Storage."+g.method+" but cannot report a missing key or certificate (no error result)")
 				continue
 			}
-			n++
-			rec := false
-			keyOK, certOK := false, false
-			for _, a := range p.Atoms {
-				if a.Op == "NIL" && a.Neg {
-					switch {
-					case strings.HasSuffix(a.A, g.method+"#0"):
-						rec = true
-					case strings.HasSuffix(a.A, g.method+"#0.Key"):
-						keyOK = true
-					case strings.HasSuffix(a.A, g.method+"#0.Certificate"):
-						certOK = true
+			aps, ok := fx.atomPaths(fn, 4096)
+			if !ok {
+				r.Undecided("R-GUARD", gkey, w.FnPos(fn), "too many paths")
+				continue
+			}
+			bad := ""
+			n := 0
+			for i := range aps {
+				p := &aps[i]
+				isNil, _ := fx.errNilness(p, fx.retVal(p, res.Len()-1))
+				if !isNil {
+					continue
+				}
+				n++
+				rec := false
+				keyOK, certOK := false, false
+				for _, a := range p.Atoms {
+					if a.Op == "NIL" && a.Neg {
+						switch {
+						case strings.HasSuffix(a.A, g.method+"#0"):
+							rec = true
+						case strings.HasSuffix(a.A, g.method+"#0.Key"):
+							keyOK = true
+						case strings.HasSuffix(a.A, g.method+"#0.Certificate"):
+							certOK = true
+						}
 					}
 				}
+				if !(rec && keyOK && certOK) {
+					bad = fmt.Sprintf("success is returned without having established record != nil (%v), Key != nil (%v), Certificate != nil (%v)", rec, keyOK, certOK)
+				}
 			}
-			if !(rec && keyOK && certOK) {
-				bad = fmt.Sprintf("success is returned without having established record != nil (%v), Key != nil (%v), Certificate != nil (%v)", rec, keyOK, certOK)
-			}
+			r.Check(bad == "" && n > 0, "R-GUARD", gkey+":key-shape", w.FnPos(fn), "success only for a non-nil record with key and certificate", bad)
 		}
-		r.Check(bad == "" && n > 0, "R-GUARD", g.fn+":key-shape", w.FnPos(fn), "success only for a non-nil record with key and certificate", bad)
 	}
 	// key material of the signing functions
 	hvf := cx.newVFlowFns(scope)
